@@ -13,6 +13,7 @@ import (
 
 	"github.com/vulcand/oxy/v2/internal/holsterv4/clock"
 	"github.com/vulcand/oxy/v2/ratelimit"
+	"github.com/vulcand/oxy/v2/utils"
 	"github.com/vulcand/oxy/v2/verifharness/gen"
 	"github.com/vulcand/oxy/v2/verifharness/vstat"
 	"pgregory.net/rapid"
@@ -441,5 +442,89 @@ func TestC13_Quota(t *testing.T) {
 			}
 		}
 		vstat.Case(fmt.Sprintf("quota|%v|%v|%s", rates, httpLevel, strings.Join(log, ";")), retries > 0, []string{"volume-quota"}, map[string]any{"rates": fmt.Sprint(rates), "http": httpLevel, "history": log})
+	})
+}
+
+// TestC13_TwoClients: the clauses about "its source" with a second, busy client next to it. The
+// limiter identifies clients through the stock request.header variable (configured in any
+// spelling of the header name), the client names may be long and differ only at the end.
+func TestC13_TwoClients(t *testing.T) {
+	rapid.Check(t, func(t *rapid.T) {
+		spelling := rapid.SampledFrom([]string{"X-Client", "x-client", "X-CLIENT", "Authorization", "X-Client-ID"}).Draw(t, "headerSpelling")
+		ex, err := utils.NewExtractor("request.header." + spelling)
+		if err != nil {
+			t.Fatalf("NewExtractor: %v", err)
+		}
+		prefix := rapid.SampledFrom([]string{"", "client-", strings.Repeat("eyJhbGciOiJIUzI1NiJ9.", 4), strings.Repeat("k", 63), strings.Repeat("k", 64), strings.Repeat("k", 200)}).Draw(t, "namePrefix")
+		alice, bob := prefix+"alice", prefix+"bob"
+		avg := int64(rapid.IntRange(1, 10).Draw(t, "average"))
+		burst := int64(rapid.IntRange(1, 10).Draw(t, "burst"))
+		rates := []gen.Rate{{Period: time.Second, Average: avg, Burst: burst}}
+		if rapid.Bool().Draw(t, "minuteRate") {
+			rates = append(rates, gen.Rate{Period: time.Minute, Average: 60 * avg, Burst: 30 * burst})
+		}
+		rs, err := gen.RateSet(rates)
+		if err != nil {
+			t.Fatal(err)
+		}
+		clock.Freeze(epoch)
+		defer clock.Unfreeze()
+		served := 0
+		tl, err := ratelimit.New(http.HandlerFunc(func(w http.ResponseWriter, r *http.Request) { served++ }), ex, rs)
+		if err != nil {
+			t.Fatal(err)
+		}
+		do := func(who string) (bool, time.Duration) {
+			req := httptest.NewRequest("GET", "http://x/", nil)
+			req.Header.Set(spelling, who)
+			rec := httptest.NewRecorder()
+			b := served
+			tl.ServeHTTP(rec, req)
+			if served == b+1 {
+				return true, 0
+			}
+			d, _ := time.ParseDuration(rec.Header().Get("X-Retry-In"))
+			return false, d
+		}
+		var log []string
+		// alice spends her burst and is refused
+		for i := int64(0); i < burst; i++ {
+			if ok, _ := do(alice); !ok {
+				t.Fatalf("request %d of a fresh client with burst %d refused", i+1, burst)
+			}
+		}
+		ok, wait := do(alice)
+		if ok || wait <= 0 {
+			t.Fatalf("burst %d spent at one instant, the next request: admitted=%v wait=%v", burst, ok, wait)
+		}
+		log = append(log, fmt.Sprintf("alice refused, told to wait %v", wait))
+		// bob is busy in the meantime (his own budget, also at the very instant of alice's retry)
+		busy := rapid.IntRange(1, 2*int(burst)+2).Draw(t, "bobRequests")
+		clock.Advance(wait)
+		for i := 0; i < busy; i++ {
+			do(bob)
+		}
+		if ok, w2 := do(alice); !ok {
+			t.Fatalf("alice was told to wait %v; after exactly that, with no traffic of her own in between (only %d requests of another client), her retry was refused (wait %v)\nheader %q, names %q / %q, rates %v", wait, busy, w2, spelling, alice, bob, rates)
+		}
+		// alice stays idle for burst x period/average while bob keeps going: her full burst is back
+		idle := time.Duration(burst)*time.Duration((int64(time.Second)+avg-1)/avg) + time.Millisecond
+		if len(rates) > 1 {
+			idle = 31 * time.Second
+		}
+		steps := rapid.IntRange(1, 6).Draw(t, "bobBursts")
+		for i := 0; i < steps; i++ {
+			clock.Advance(idle / time.Duration(steps))
+			for k := 0; k < busy; k++ {
+				do(bob)
+			}
+		}
+		clock.Advance(time.Millisecond)
+		for i := int64(0); i < burst; i++ {
+			if ok, _ := do(alice); !ok {
+				t.Fatalf("alice stayed idle for %v (burst %d x period/average) while another client was busy; request %d of her regained burst was refused\nheader %q, names %q / %q, rates %v", idle, burst, i+1, spelling, alice, bob, rates)
+			}
+		}
+		vstat.Case(fmt.Sprintf("two|%s|%d|%v|%d|%d", spelling, len(prefix), rates, busy, steps), true, []string{"second-client-busy"}, map[string]any{"header": spelling, "name_prefix_len": len(prefix), "rates": fmt.Sprint(rates), "log": log})
 	})
 }
